@@ -15,6 +15,8 @@ mod c06;
 #[cfg(kani)]
 mod c07;
 #[cfg(kani)]
+mod c08;
+#[cfg(kani)]
 mod c09;
 #[cfg(kani)]
 mod c11;
